@@ -4,6 +4,7 @@ package gen
 
 import (
 	"fmt"
+	"strings"
 	"unicode/utf8"
 
 	"pgregory.net/rapid"
@@ -103,7 +104,13 @@ func StringBody(t *rapid.T, o StrOpt) []byte {
 				out = append(out, pick(t, "pair", surrogatePairs)...)
 			}
 		case 6:
-			out = append(out, pick(t, "html", htmlish)...)
+			h := pick(t, "html", htmlish)
+			out = append(out, h...)
+			if rapid.IntRange(0, 3).Draw(t, "htmlrun") == 0 {
+				// a dense run: the escaped form is several times the input, output buffers are regrown more than once
+				n := []int{2, 15, 16, 17, 31, 33, 64, 100, 400, 1500, 4000}[rapid.IntRange(0, 10).Draw(t, "htmlrunlen")]
+				out = append(out, strings.Repeat(h, n)...)
+			}
 		case 7:
 			if o.LoneSurr && !o.NoEscapes {
 				out = append(out, pick(t, "lone", loneSurrogates)...)
